@@ -531,3 +531,29 @@ def sentinel_twins(check: Check, repo: Repo) -> None:
                      f"paired with `{want}`" if ok else f"raw twin `{want}` not tested alongside: a visitor returning the raw value is misread")
             n += 1
     check.floor(rule, 6, "sentinel identity tests")
+
+
+def edit_sentinel(check: Check, repo: Repo) -> None:
+    rule = "EDIT-SENTINEL"
+    check.rule(
+        rule,
+        "in visit() every consumer of the recorded edits - the array arm and the node arm of the "
+        "edit application - tests each edit value against REMOVE (and its raw twin) before storing it; "
+        "an arm that stores edit values untested puts the sentinel itself into the rebuilt tree",
+    )
+    fn = repo.func("language.visitor", "visit")
+    edited = [n for n in walk_body(fn) if isinstance(n, ast.If) and unparse(n.test) == "is_edited"]
+    if len(edited) != 1:
+        raise AnalysisError("visit(): `if is_edited:` block not found")
+    arms_if = [s for s in edited[0].body if isinstance(s, ast.If) and unparse(s.test) == "in_array"]
+    if len(arms_if) != 1:
+        raise AnalysisError("visit(): in_array arms of the edit application not found")
+    arms = {"array arm": arms_if[0].body, "node arm": arms_if[0].orelse}
+    for name, body in arms.items():
+        uses = [n for s in body for n in ast.walk(s) if isinstance(n, ast.Name) and n.id == "edits"]
+        tests = [n for s in body for n in ast.walk(s) if isinstance(n, ast.Compare) and isinstance(n.ops[0], (ast.Is, ast.IsNot))
+                 and unparse(n.comparators[0]) == "REMOVE"]
+        ok = bool(uses) and bool(tests)
+        check.ob(rule, arms_if[0], f"{name} of the edit application handles REMOVE", ok,
+                 f"consumes `edits` {len(uses)}x and tests `is REMOVE` {len(tests)}x" if ok else
+                 f"consumes `edits` {len(uses)}x but never tests an edit value against REMOVE: the sentinel is stored in the tree")
